@@ -11,6 +11,7 @@ The broker and the tables persist across lines (a case is `reset` followed by op
   json <hexbody> bad | <hb> <obs> <obt> <mt> <sr> <fn> <tls> <deflate> <snappy>
   reset
   io <conf> <hexstream>
+  iof <conf> <hexstream> <hexid,…>   (the ids are in flight for this connection)
   http <conf> <method> <hexpath> <hexquery> <contentLength|-1> <hexbody> <healthy>
   spec <conf> <hexstream>
   name <hex> | b10 <hex> | pint <hex> | query <hex> | mpubtext <maxMsg> <maxBody> <hex>
@@ -177,6 +178,25 @@ def stepLine (st : DState) (line : String) : DState × String :=
         let conn := if r.fin == .eof then showConn r.st else "-"
         (st.setBroker cid r.broker,
          s!"R={joinOr "," (r.replies.map showReply)} E={showEnd r.fin} S={conn} B={showBroker r.broker}")
+    | _, _ => (st, "bad-op")
+  | ["iof", cid, h, idsHex] =>
+    -- one connection with the given message ids in flight for it; the broker is not compared
+    match st.confs.find? (·.1 == cid), unhex h with
+    | some (_, dc), some bs =>
+      let ids := (idsHex.splitOn ",").filterMap unhex
+      let conf := { dc.conf with decode := fun body => (lookupJson st.json body).getD none }
+      let s0 := { freshConn dc.hbNs dc.obtNs dc.mtNs with inflight := ids }
+      let r := serve conf s0 (st.broker cid) bs
+      let stateOf (id : Bytes) : String :=
+        r.eff.foldl (fun acc e =>
+          if acc != "inflight" then acc else
+          match e with
+          | .fin i => if i == id then "gone" else acc
+          | .req i ns => if i == id then (if ns == 0 then "requeued" else s!"deferred:{ns}") else acc
+          | _ => acc) "inflight"
+      let conn := if r.fin == .eof then showConn r.st else "-"
+      (st.setBroker cid r.broker,
+       s!"R={joinOr "," (r.replies.map showReply)} E={showEnd r.fin} S={conn} F={",".intercalate (ids.map (fun i => s!"{hex i}={stateOf i}"))}")
     | _, _ => (st, "bad-op")
   | ["spec", cid, h] =>
     -- what the declarative table allows as the answer to the FIRST command of a fresh connection
